@@ -20,8 +20,44 @@ BIG = [wl("diamond_multitask"), wl("fail_branch"), wl("first_of"), wl("quorum"),
 CRASH = [wl("diamond"), wl("multitask"), wl("poll", 2), wl("synthetic"), wl("jump_cycle", 2, 1), wl("fail_mid")]
 
 
+E3_SCEN = {
+    # a recovery sweep running concurrently with one handler, statement-level interleaving
+    "sweep||RunTask(B)": (wl("diamond"), ["RunTask:B", "StartStage:C", "StartTask:C", "RunTask:C"], [1]),
+    "sweep||StartTask(B)": (wl("diamond"), ["StartTask:B", "StartStage:C"], [1]),
+    "sweep||CompleteTask(B)": (wl("diamond"), ["CompleteTask:B", "StartStage:C"], [1]),
+    "sweep||StartStage(D)": (wl("diamond"), ["StartStage:D"], [1]),
+    "sweep||CompleteStage(A)": (wl("diamond"), ["CompleteStage:A"], [1]),
+    "sweep||RunTask(poll)": (wl("poll", 1), ["RunTask:A"], [1]),
+    "sweep||ContinueParentStage(S)": (wl("synthetic"), ["ContinueParentStage:S"], [1]),
+}
+
+
+def e3_oracle(ctx):
+    import collections
+
+    v = []
+    final = ctx["final"]
+    if dumps(final.outcome()) not in ctx["ref"]["admissible"]:
+        v.append({"kind": "outcome-differs-with-concurrent-sweep", "observed": final.outcome(), "sig": "outcome-differs"})
+    ref_counts = collections.Counter((e["stage"], e["task"], e["step"]) for e in ctx["ref"]["ledger"])
+    got = collections.Counter((e["stage"], e["task"], e["step"]) for e in ctx["ledger"])
+    extra = {f"{k[0]}#{k[1]}:{k[2]}": n for k, n in got.items() if n > ref_counts.get(k, 0)}
+    if extra:
+        v.append({"kind": "extra-execution-with-concurrent-sweep", "extra": extra, "sig": "extra-execution"})
+    from vlib.monitors import check_quiescent
+
+    v.extend(check_quiescent(final))
+    return v
+
+
 def jobs(tier, seed):
     js = []
+    for name in E3_SCEN:
+        bound = 2 if tier == "quick" else 3
+        shards = 2 if bound == 2 else 8
+        for k in range(shards):
+            js.append({"label": f"e3 {name}|preemptions<={bound}|shard{k}/{shards}", "kind": "e3", "scenario": name,
+                       "bound": bound, "shard": [k, shards]})
     if tier == "quick":
         for spec in BIG:
             js.append({"label": f"{spec[0]}{spec[1]}|sweep1", "wl": spec, "budget": {"sweep": 1}, "kind": "e1"})
@@ -79,7 +115,28 @@ def run_e2(job):
             "job_spec": job, "crash_points": len(snaps)}
 
 
+def run_e3(job):
+    from vlib.e3 import run_engine_scenario
+
+    spec, skip, scripts = E3_SCEN[job["scenario"]]
+    workload = make_workload(spec)
+    s = run_engine_scenario(workload, skip, scripts, e3_oracle, job["bound"], shard=job.get("shard"),
+                            time_cap=job.get("time_cap", 1200), extra_scripts=["recovery"])
+    viols, seen = [], set()
+    for v in s.pop("_violations"):
+        v["signature"] = f"e3:{v['sig']}@{job['scenario']}"
+        if v["signature"] not in seen:
+            seen.add(v["signature"])
+            viols.append(v)
+    s["violations"] = viols
+    s["job_spec"] = job
+    s["states"] = s["transitions"] = s.get("points", 0)
+    return s
+
+
 def run_job(job):
+    if job["kind"] == "e3":
+        return run_e3(job)
     if job["kind"] == "e2":
         return run_e2(job)
     ex = build(job).run()
@@ -90,11 +147,15 @@ def run_job(job):
 
 def aggregate(results, tier, seed, pre):
     return aggregate_e1(results, tier, seed, pre, extra_cov={
-        "crash_points_once_vs_twice": sum(r.get("crash_points", 0) for r in results if "harness_error" not in r)})
+        "crash_points_once_vs_twice": sum(r.get("crash_points", 0) for r in results if "harness_error" not in r),
+        "interleaving_executions": sum(r.get("executions", 0) for r in results if "harness_error" not in r)})
 
 
 def replay(payload):
     job = payload["job"]
+    if job["kind"] == "e3":
+        r = run_e3(job)
+        return {"violations": [v for v in r["violations"] if v["signature"] == payload["violation"].get("signature")]}
     if job["kind"] == "e2":
         r = run_e2(job)
         return {"violations": [v for v in r["violations"] if v["signature"] == payload["violation"].get("signature")]}
